@@ -342,6 +342,14 @@ fn main() {
                 let re = rc::encode(&want, v5, if order.is_empty() { None } else { Some(&order) });
                 let ref_exact = re == bytes;
                 let Some((packet, skip_topic, alias)) = build_out(p) else { inexpressible += 1; continue; };
+                // does the validation the public submit / stop entry points run accept the packet?  (CONNECT options are never validated)
+                let validated: u8 = match &packet {
+                    vc::OutPacket::Publish { packet, .. } => gneiss_mqtt::verif::validate::outbound(&gneiss_mqtt::verif::validate::UserPacket::Publish(packet.clone())).is_ok() as u8,
+                    vc::OutPacket::Subscribe { packet, .. } => gneiss_mqtt::verif::validate::outbound(&gneiss_mqtt::verif::validate::UserPacket::Subscribe(packet.clone())).is_ok() as u8,
+                    vc::OutPacket::Unsubscribe { packet, .. } => gneiss_mqtt::verif::validate::outbound(&gneiss_mqtt::verif::validate::UserPacket::Unsubscribe(packet.clone())).is_ok() as u8,
+                    vc::OutPacket::Disconnect(d) => gneiss_mqtt::verif::validate::outbound(&gneiss_mqtt::verif::validate::UserPacket::Disconnect(d.clone())).is_ok() as u8,
+                    _ => 1,
+                };
                 let mut outputs: Vec<Vec<u8>> = Vec::new(); let mut err = String::new(); let mut panics = 0u64;
                 for caps in capacity_sequences(&mut rng, &extra_caps) {
                     let r = std::panic::catch_unwind(std::panic::AssertUnwindSafe(|| vc::encode(&packet, v5, skip_topic, alias, &caps)));
@@ -362,7 +370,7 @@ fn main() {
                         }
                     } else { diff = "framing".into(); }
                 }
-                tr.emit("Enc", vec![("dir", json!("out")), ("type", json!(ty)), ("v5", json!(v5 as u8)), ("label", json!(label)), ("len", json!(bytes.len())), ("outputs", json!(outputs.len())),
+                tr.emit("Enc", vec![("dir", json!("out")), ("type", json!(ty)), ("v5", json!(v5 as u8)), ("label", json!(label)), ("class", json!(class)), ("validated", json!(validated)), ("len", json!(bytes.len())), ("outputs", json!(outputs.len())),
                     ("error", json!(err)), ("panics", json!(panics)), ("decodable", json!(decodable)), ("matched", json!(matched)), ("exact", json!(exact)), ("refExact", json!(ref_exact as u8)), ("diff", json!(diff))]);
             }
         }
